@@ -5,9 +5,9 @@ from __future__ import annotations
 import ast
 from typing import Dict, List, Optional, Set
 
-from ..astutil import arg_of, call_name, calls, enclosing_function, guards, kwarg, last_attr, stmt_key, txt, walk_local
+from ..astutil import arg_of, call_name, calls, clone, enclosing_function, guards, kwarg, last_attr, stmt_key, txt, walk_local
 from ..cfg import CFG
-from ..flow import bound_from, fact_texts, provenance
+from ..flow import bound_from, fact_texts, inline_reaching, path_facts, provenance
 from .family_e import alpha
 from ..index import AnalysisError, dotted
 from ..kernel import OutsideFragment, affine, decide, parse, rename, straight_line_env
@@ -364,6 +364,13 @@ def r04_5(ctx: Ctx) -> None:
     from ..flow import inline_reaching as _inline
     mins = [c for c in calls(func) if call_name(c) == "min"
             and any("get_distance_between_locations" in txt(_inline(cfg, c, a, max_depth=0)) for a in c.args)]
+    if not mins:
+        # per-pair form: under the wrap point the gap becomes min(<the line gap computed just before>, <the way round>)
+        for c in calls(func):
+            stmt = next((x for x in [getattr(c, "_parent", None)] if isinstance(x, ast.Assign)), None)
+            if call_name(c) == "min" and stmt is not None and isinstance(stmt.targets[0], ast.Name) \
+                    and any(txt(arg) == stmt.targets[0].id for arg in c.args) and "wrap_point" in fact_texts(cfg, c):
+                mins.append(c)
     ok = bool(mins) and all("wrap_point" in fact_texts(cfg, m) for m in mins)
     ctx.ob("R04.5", LOC, mins[0] if mins else func, "get_distance_between_locations", "ring <= line", ok,
            "with a wrap point the result is the minimum of the way round and the linear distance",
@@ -411,6 +418,89 @@ def r04_6(ctx: Ctx) -> None:
                        form=f"{role}={txt(arg)}" + (" [aggregated]" if aggregated else ""))
 
 
+def r04_7(ctx: Ctx) -> None:
+    """ the distance is that of the closest pair of *parts*: coordinates are read from elements of the operands' part
+        lists, and the gap between two disjoint parts is decided against the line / ring model """
+    qual = "get_distance_between_locations"
+    func = ctx.fn(LOC, qual)
+    cfg = CFG(func)
+    a, b = [p.arg for p in func.args.args[:2]]
+    wrap = func.args.args[2].arg if len(func.args.args) > 2 else "wrap_point"
+    # names that stand for one part of an operand: loop / comprehension variables over <operand>.parts
+    part_of = {}
+    for node in ast.walk(func):
+        pairs = []
+        if isinstance(node, ast.For):
+            pairs.append((node.target, node.iter))
+        elif isinstance(node, (ast.GeneratorExp, ast.ListComp, ast.SetComp)):
+            pairs += [(g.target, g.iter) for g in node.generators]
+        for target, it in pairs:
+            if isinstance(target, ast.Name) and txt(it) in (f"{a}.parts", f"{b}.parts"):
+                part_of[target.id] = a if txt(it) == f"{a}.parts" else b
+            elif isinstance(target, ast.Tuple) and isinstance(it, ast.Call) and txt(it.func) in ("product", "itertools.product") \
+                    and [txt(x) for x in it.args] in ([f"{a}.parts", f"{b}.parts"], [f"{b}.parts", f"{a}.parts"]):
+                for elt, src in zip(target.elts, it.args):
+                    if isinstance(elt, ast.Name):
+                        part_of[elt.id] = a if txt(src) == f"{a}.parts" else b
+    whole = [n for n in ast.walk(func) if isinstance(n, ast.Attribute) and n.attr in ("start", "end")
+             and isinstance(n.value, ast.Name) and n.value.id in (a, b)]
+    single = any(truth and (txt(e) in (f"len({a}.parts) == 1", f"len({b}.parts) == 1")) for n in whole for e, truth in path_facts(cfg, n))
+    ok = not whole or single
+    ctx.ob("R04.7", LOC, whole[0] if whole else func, qual, "coordinates read per part", ok,
+           "the distance between multi-part (exons, origin-spanning) locations is that of their closest parts: the arithmetic "
+           "reads the start/end of parts, never of a whole operand (whose start..end hull includes bases that are not in the "
+           "location - for an origin-spanning location the whole record)",
+           detail="" if ok else f"`{txt(whole[0])}` is the hull of all parts", form="; ".join(sorted({txt(n) for n in whole}))[:120])
+    if whole or len(set(part_of.values())) != 2:
+        for inst in ("gap between two parts", "all pairs of parts"):
+            ctx.ob("R04.7", LOC, func, qual, inst, False,
+                   "the distance is the minimum, over all pairs of parts, of the gap between two disjoint parts",
+                   detail="no loop over the pairs of parts of the two operands", form="")
+        return
+    pa = sorted(k for k, v in part_of.items() if v == a)[0]
+    pb = sorted(k for k, v in part_of.items() if v == b)[0]
+    mapping = {f"{pa}.start": "a_s", f"{pa}.end": "a_e", f"{pb}.start": "b_s", f"{pb}.end": "b_e", wrap: "W"}
+    pre_line = parse("a_s < a_e and b_s < b_e and (a_e <= b_s or b_e <= a_s) and 0 <= a_s and 0 <= b_s")
+    pre_ring = parse("a_s < a_e and b_s < b_e and (a_e <= b_s or b_e <= a_s) and 0 <= a_s and 0 <= b_s and a_e <= W and b_e <= W")
+    line = "max(a_s - b_e, b_s - a_e)"
+    ring = f"min({line}, min(a_s - b_e, b_s - a_e) + W)"
+    # the per-pair gap: assignments to one local inside the pair loop, the later one(s) under the wrap-point fact
+    gaps = [n for n in walk_local(func) if isinstance(n, ast.Assign) and isinstance(n.targets[0], ast.Name)
+            and {x.id for x in ast.walk(n.value) if isinstance(x, ast.Name)} & {pa, pb}]
+    if not gaps:
+        ctx.cannot("R04.7", LOC, func, qual, "gap between two parts", "no assignment computing a gap from the two parts was found")
+        return
+    name = gaps[0].targets[0].id
+    steps = [n for n in walk_local(func) if isinstance(n, ast.Assign) and txt(n.targets[0]) == name]
+    try:
+        first = rename(inline_reaching(cfg, steps[0], steps[0].value, keep={pa, pb, wrap}), mapping)
+        ok1, cex1, _ = decide(first, parse(line), pre=pre_line)
+        ok2, cex2 = True, None
+        ringed = [n for n in steps[1:] if any(truth and txt(e) == wrap for e, truth in path_facts(cfg, n))]
+        if steps[0] in [n for n in steps if any(truth and txt(e) == wrap for e, truth in path_facts(cfg, n))]:
+            ringed, ok1, cex1 = [steps[0]], True, None
+        for n in ringed:
+            class Prev(ast.NodeTransformer):
+                def visit_Name(self, node):  # noqa: N802
+                    return clone(steps[0].value) if node.id == name and n is not steps[0] else node
+            value = rename(inline_reaching(cfg, n, Prev().visit(clone(n.value)), keep={pa, pb, wrap, name}), mapping)
+            ok2, cex2, _ = decide(value, parse(ring), pre=pre_ring)
+        covered = bool(ringed) and len(ringed) + (0 if steps[0] in ringed else 1) == len(steps)
+        ctx.ob("R04.7", LOC, steps[0], qual, "gap between two parts", ok1 and ok2 and covered,
+               "two disjoint parts are max(a.start - b.end, b.start - a.end) apart on a line and, with a wrap point, the smaller of "
+               "that and the way over the origin",
+               detail=f"differs at {cex1 or cex2}" if (cex1 or cex2) else ("" if covered else "an assignment of the gap is neither the line nor the ring form"),
+               form="; ".join(txt(n.value)[:80] for n in steps))
+    except OutsideFragment as err:
+        ctx.cannot("R04.7", LOC, steps[0], qual, "gap between two parts", str(err))
+        return
+    # the result is the minimum over all pairs: no pair is skipped
+    loops = [n for n in walk_local(func) if isinstance(n, ast.For)]
+    ok = not any(isinstance(n, (ast.Break, ast.Continue)) for lp in loops for n in walk_local(lp))
+    ctx.ob("R04.7", LOC, loops[0] if loops else func, qual, "all pairs of parts", ok,
+           "every pair of parts takes part in the minimum (no early exit from the pair loops)", form="")
+
+
 def run(ctx: Ctx) -> None:
     ctx.rule("R04.1", "overlap / containment base cases agree with the set-of-bases model", floor=2)
     ctx.rule("R04.2", "lifting of overlap / containment to multi-part locations", floor=6)
@@ -418,9 +508,11 @@ def run(ctx: Ctx) -> None:
     ctx.rule("R04.4", "affine forms of shifting and extending", floor=5)
     ctx.rule("R04.5", "distance 0 under overlap; ring distance <= linear; wrap iff circular", floor=4)
     ctx.rule("R04.6", "covering spans use order-independent extremes", floor=10)
+    ctx.rule("R04.7", "distance is measured between closest parts, per-pair gap decided on line and ring", floor=3)
     r04_1(ctx)
     r04_2(ctx)
     r04_3(ctx)
     r04_4(ctx)
     r04_5(ctx)
     r04_6(ctx)
+    r04_7(ctx)
